@@ -248,7 +248,9 @@ def expr_case(fam, ty, tree, form, n, cfg, mode, kind='own', rank=1, tagx=''):
             ens.append(('bool', 'r[%d] == tree with x/s or x*(1/s)' % p, c))
     h = hashlib.md5(ex.encode()).hexdigest()[:6]
     cid = 'C02/%s/%s/%s/%s/%s/n%d/%s-%s%s/%s' % (fam, ty.name, form, slug(ex), h, n, kind, 'x'.join(map(str, shape)), tagx, cfg.tag())
-    return Case(cid, 'C02', body, bufs, ens, mode, cfg, scalars=scalars)
+    c = Case(cid, 'C02', body, bufs, ens, mode, cfg, scalars=scalars)
+    c.nalt = max(1, len(tree.spec(env, 0)))
+    return c
 
 def slug(ex):
     s = ex.replace('(float)', '').replace('(double)', '').replace('(int)', '').replace('(int64_t)', '')
@@ -307,77 +309,150 @@ def sizes_for(isa, ty):
 
 MATH_FNS = ['sin', 'cos', 'tan', 'exp', 'log', 'tanh', 'asin', 'cbrt', 'log10', 'atan', 'sinh', 'exp2']
 
+# ----------------------------------------------------------------------------------------------
+# UF cost model (measured): CBMC's Ackermann expansion costs ~ sum over function symbols of C(#applications, 2) with
+# the applications of the translated code and of the clauses both counted (a commutative FADD/FMUL is two
+# applications); about 10 s of CPU per 1000 pairs.  Cases are generated within a pair budget.
+# ----------------------------------------------------------------------------------------------
+def _apps(e, acc, seen):
+    if id(e) in seen: return
+    seen.add(id(e))
+    if e.ty.kind == 'float':
+        if e.op in ('add', 'mul'): acc['f' + e.op] = acc.get('f' + e.op, 0) + 2
+        elif e.op in ('sub', 'div', 'sqrt'): acc['f' + e.op] = acc.get('f' + e.op, 0) + 1
+        elif e.op == 'libm': acc[e.data] = acc.get(e.data, 0) + 1
+    for a in e.args: _apps(a, acc, seen)
+
+def uf_pairs(case):
+    if case.mode != 'UF': return 0
+    spec = {}; seen = set()
+    for (b, k, e) in case.ensures: _apps(e, spec, seen)
+    nalt = getattr(case, 'nalt', 1)
+    tot = 0
+    for sym, n in spec.items():
+        m = n + n // nalt          # clauses (all alternatives) + the code (one alternative)
+        tot += m * (m - 1) // 2
+    return tot
+
+def fit(rng, make, cands, budget, tries=40):
+    """first candidate (random order) whose case fits the pair budget; prefers the costliest of a few fitting ones."""
+    best = None
+    order = list(cands); rng.shuffle(order)
+    nfit = 0
+    for c in order[:tries]:
+        cs = make(c)
+        if cs is None: continue
+        cs.pairs = uf_pairs(cs)
+        if cs.pairs <= budget:
+            nfit += 1
+            if best is None or cs.pairs > best.pairs: best = cs
+            if nfit >= 4: break
+    return best
+
+def finish(c):
+    """heavy UF cases go straight to the assertion form (the DFCC-instrumented program would only burn its 45 s budget)."""
+    c.pairs = getattr(c, 'pairs', None) if getattr(c, 'pairs', None) is not None else uf_pairs(c)
+    if c.pairs > 700: c.form = 'harness'
+    return c
+
 def cases(tier, seed):
     rng = random.Random(seed)
     thorough = tier == 'thorough'
     out = []
+    PMAX = 6000 if thorough else 1000
     FT = arith_trees(3 if thorough else 2, True)
     IT = arith_trees(3 if thorough else 2, False, neg=False)
     FT1 = [t for t in FT if t.depth() >= 1]
     IT1 = [t for t in IT if t.depth() >= 1]
+    # trees without uninterpreted operations (negation / abs only): the only float trees affordable on the longest tensors
+    UN = [un('neg', T_('a')), un('abs', T_('a')), un('neg', un('abs', T_('a'))), un('abs', un('neg', T_('b'))), un('neg', un('neg', T_('a')))]
+    def add(c):
+        if c is not None: out.append(finish(c))
     for isa in isas(tier):
         for std in (['c++14', 'c++17'] if thorough else ['c++14']):
-            cfg0 = Cfg(isa, std, pipe='P0'); cfg1 = Cfg(isa, std)
+            cfg = Cfg(isa, std, pipe='P0')   # P0 also for SYM: -O1 instcombine rewrites e.g. (a+b)-(b+s) into a-s and the adder equivalence is SAT-hard
+            cfg1 = Cfg(isa, std)
             for ty in (FLT, DBL, INT, I64L):
                 flt = ty.kind == 'float'
-                cfg = cfg0      # P0 also for SYM: -O1 instcombine rewrites e.g. (a+b)-(b+s) into a-s and the adder equivalence is SAT-hard
                 mode = 'UF' if flt else 'SYM'
-                trees = FT1 if flt else IT1
                 sizes = sizes_for(isa, ty)
                 V = vec_elems(isa, ty)
-                # ---- arithmetic trees: every size 1..2V+1 at least `rounds` times, forms and kinds cycled
-                rounds = (2 if thorough else 1) if len(sizes) > 20 else (4 if thorough else (2 if len(sizes) > 9 else 4))
-                forms = ['set', 'add', 'sub', 'mul', 'div'] if flt else ['set', 'add', 'sub']
-                slots = [(n, r) for r in range(rounds) for n in sizes]
-                rng.shuffle(slots)
-                for i, (n, r) in enumerate(slots):
-                    form = forms[i % len(forms)]
-                    for _ in range(50):
-                        t = rng.choice(trees)
-                        ops = t.nfloatops() + (1 if form != 'set' else 0)
-                        if not flt or ops * n <= 140: break
-                    kind = 'own'
-                    if form == 'set': kind = rng.choice(['own', 'ctor', 'ctor', 'map', 'eval'])
-                    elif rng.random() < 0.25: kind = 'map'
-                    rank = 2 if (rng.random() < 0.2 and n >= 4) else 1
-                    out.append(expr_case('arith', ty, t, form, n, cfg, mode, kind, rank))
+                def kind_for(form):
+                    if form == 'set': return rng.choice(['own', 'ctor', 'ctor', 'map', 'eval'])
+                    return 'map' if rng.random() < 0.25 else 'own'
+                if flt:
+                    # ---- size sweep: every size 1..2V+1, the richest tree / assignment form that fits the budget
+                    forms = ['set', 'add', 'sub', 'mul', 'div']
+                    order = list(sizes); rng.shuffle(order)
+                    for i, n in enumerate(order * (2 if thorough else 1)):
+                        cands = [(t, f) for t in sample(rng, FT1, 30) for f in (forms[i % 5],)] + [(t, 'set') for t in sample(rng, FT1, 10)] \
+                                + [(T_('a'), f) for f in ('sub', 'div')] + [(t, 'set') for t in UN]
+                        # candidates are tried richest-first: the requested form, then plain assignment, then the cheapest shapes
+                        c = None
+                        for group in (cands[:30], cands[30:40], cands[40:42], cands[42:]):
+                            c = fit(rng, lambda tf: expr_case('arith', ty, tf[0], tf[1], n, cfg, mode, kind_for(tf[1]), 2 if (rng.random() < 0.2 and n >= 4) else 1), group, PMAX)
+                            if c is not None: break
+                        add(c)
+                    # ---- operator sweep: depth-2 trees on the longest tensor that fits, the vector body included where affordable
+                    for t in sample(rng, FT1, 60 if thorough else 14):
+                        form = rng.choice(forms)
+                        for n in (2 * V + 1, V + 1, V, max(V // 2, 1) + 1, 3, 2, 1):
+                            c = expr_case('arith', ty, t, form, n, cfg, mode, kind_for(form))
+                            c.pairs = uf_pairs(c)
+                            if c.pairs <= PMAX: add(c); break
+                else:
+                    # ---- integers (SYM): every size 1..2V+1, `rounds` times
+                    rounds = (2 if thorough else 1) if len(sizes) > 20 else (4 if thorough else (2 if len(sizes) > 9 else 3))
+                    forms = ['set', 'add', 'sub']
+                    slots = [(n, r) for r in range(rounds) for n in sizes]
+                    rng.shuffle(slots)
+                    for i, (n, r) in enumerate(slots):
+                        form = forms[i % len(forms)]
+                        add(expr_case('arith', ty, rng.choice(IT1), form, n, cfg, mode, kind_for(form), 2 if (rng.random() < 0.2 and n >= 4) else 1))
                 # ---- boolean-valued trees (comparisons, logic): scalar path by construction; fewer sizes
                 bts = bool_trees(FT if flt else IT, rng, 10 if thorough else 5)
                 bs = sample(rng, sizes, 6 if thorough else 3) + [V, 2 * V + 1]
                 for i, t in enumerate(bts):
-                    n = bs[i % len(bs)]
-                    out.append(expr_case('bool', ty, t, 'set', n, cfg, mode, rng.choice(['own', 'ctor', 'map'])))
+                    for n in (bs[i % len(bs)], V + 1, V, 3, 1):
+                        c = expr_case('bool', ty, t, 'set', n, cfg, mode, rng.choice(['own', 'ctor', 'map']))
+                        c.pairs = uf_pairs(c)
+                        if c.pairs <= PMAX: add(c); break
                 # ---- tensor op= scalar
                 native_mul = (ty is INT and isa not in ('sse2', 'scalar')) or isa == 'avx512'    # native vector multiply (see int-kmul)
                 for form in ['add', 'sub', 'mul', 'div']:
-                    ns = sample(rng, sizes, 3 if thorough else 1) + [2 * V + 1]
+                    ns = sample(rng, sizes, 3 if thorough else 1) + [2 * V + 1, V]
                     if flt:
-                        if form in ('add', 'mul'):      # commutative: literal scalar on all sizes, symbolic scalar on short tensors
-                            for n in ns: out.append(scalar_rhs_case(ty, form, n, cfg, mode, const=rng.choice([2.5, -0.75, 3.0])))
-                            out.append(scalar_rhs_case(ty, form, 3, cfg, mode))
+                        if form in ('add', 'mul'):      # commutative: literal scalar, symbolic scalar on short tensors
+                            for n in ns:
+                                c = scalar_rhs_case(ty, form, n, cfg, mode, const=rng.choice([2.5, -0.75, 3.0]))
+                                if uf_pairs(c) <= PMAX: add(c)
+                            add(scalar_rhs_case(ty, form, 3, cfg, mode))
                         elif form == 'sub':
-                            for n in ns: out.append(scalar_rhs_case(ty, form, n, cfg, mode))
+                            for n in ns:
+                                c = scalar_rhs_case(ty, form, n, cfg, mode)
+                                if uf_pairs(c) <= PMAX: add(c)
                         else:                           # reciprocal-multiply by the shared value 1/s: short tensors only in UF
-                            for n in (1, 2, 3): out.append(scalar_rhs_case(ty, form, n, cfg, mode))
+                            for n in (1, 2, 3): add(scalar_rhs_case(ty, form, n, cfg, mode))
                     elif form != 'div':
                         for n in ns:
                             if form == 'mul':
-                                if native_mul: out.append(scalar_rhs_case(ty, form, n, cfg, mode, const=rng.choice([3, 5, 2])))
+                                if native_mul: add(scalar_rhs_case(ty, form, n, cfg, mode, const=rng.choice([3, 5, 2])))
                             else:
-                                out.append(scalar_rhs_case(ty, form, n, cfg, mode))
+                                add(scalar_rhs_case(ty, form, n, cfg, mode))
                 if flt:
                     # ---- symbolic scalar as a direct operand of + and * : UF on short tensors
                     ST = [bn('add', T_('a'), S_), bn('mul', S_, T_('a')), bn('add', bn('mul', T_('a'), S_), T_('b')), bn('mul', bn('sub', T_('a'), T_('b')), S_),
                           bn('add', S_, un('abs', T_('a'))), bn('sub', bn('mul', S_, T_('a')), T_('b'))]
                     for i, t in enumerate(sample(rng, ST, 6 if thorough else 3)):
-                        out.append(expr_case('sym-scalar', ty, t, ['set', 'add', 'mul', 'sub', 'div'][i % 5], 3 if i % 2 == 0 else 2, cfg, mode, ['own', 'ctor', 'map'][i % 3]))
-                if flt:
+                        add(expr_case('sym-scalar', ty, t, ['set', 'add', 'mul', 'sub', 'div'][i % 5], 3 if i % 2 == 0 else 2, cfg, mode, ['own', 'ctor', 'map'][i % 3]))
                     # ---- element-wise math functions (opaque per function)
                     for f in sample(rng, MATH_FNS, 6 if thorough else 2):
-                        n = rng.choice([V + 1, 2 * V + 1, V - 1 if V > 1 else 1, 3])
                         t = rng.choice([fn(f, T_('a')), bn('add', fn(f, T_('a')), T_('b')), fn(f, bn('sub', T_('a'), T_('b'))), bn('mul', K_(2.5), fn(f, T_('a')))])
-                        if (t.nfloatops() + 1) * n > 140: n = 3
-                        out.append(expr_case('math', ty, t, rng.choice(['set', 'add', 'mul']), n, cfg, mode, 'own'))
+                        form = rng.choice(['set', 'sub', 'mul'])
+                        for n in (2 * V + 1, V + 1, V, 3, 1):
+                            c = expr_case('math', ty, t, form, n, cfg, mode, 'own')
+                            c.pairs = uf_pairs(c)
+                            if c.pairs <= PMAX: add(c); break
                 else:
                     # ---- integer unary minus: isolated family (known defect in the vector body)
                     NT = [un('neg', T_('a')), bn('add', un('neg', T_('a')), T_('b')), bn('sub', T_('b'), un('neg', T_('a'))),
@@ -385,23 +460,22 @@ def cases(tier, seed):
                     ns = sorted(set([1, V - 1, V, V + 1, 2 * V + 1] + sample(rng, sizes, 4 if thorough else 1)))
                     for i, n in enumerate([x for x in ns if x >= 1]):
                         t = NT[i % len(NT)] if i else NT[0]
-                        out.append(expr_case('neg-int', ty, t, ['set', 'add', 'sub'][i % 3] if i else 'set', n, cfg, mode, 'own' if i % 2 == 0 else 'ctor' if i % 3 else 'own'))
+                        add(expr_case('neg-int', ty, t, ['set', 'add', 'sub'][i % 3] if i else 'set', n, cfg, mode, 'own' if i % 2 == 0 else 'ctor' if i % 3 else 'own'))
                     # ---- multiplication by a small constant (real multiplier in SAT: few, small cases; the emulated
                     #      multiplies -- int32 under SSE2, int64 below AVX-512 -- only on the shortest sizes)
-                    native = (ty is INT and isa not in ('sse2', 'scalar')) or isa == 'avx512'
                     KT = [bn('mul', T_('a'), K_(3)), bn('mul', K_(5), T_('a')), bn('add', bn('mul', T_('a'), K_(3)), T_('b')), bn('mul', bn('sub', T_('a'), T_('b')), K_(3))]
-                    kn = [V, V + 1, 2 * V + 1] if native else ([V + 1] if ty is INT else [])
+                    kn = [V, V + 1, 2 * V + 1] if native_mul else ([V + 1] if ty is INT else [])
                     for i, n in enumerate(kn):
-                        out.append(expr_case('int-kmul', ty, KT[(i + len(out)) % len(KT)], ['set', 'add', 'sub'][i % 3], n, cfg, mode, 'own'))
+                        add(expr_case('int-kmul', ty, KT[(i + len(out)) % len(KT)], ['set', 'add', 'sub'][i % 3], n, cfg, mode, 'own'))
                     # ---- pure products in ATOMS mode
                     ok64 = ty is INT or isa == 'avx512'     # the 32-bit-halves emulation of the 64-bit multiply leaves the typing
                     if ok64:
                         for n in sorted(set(sample(rng, sizes, 5 if thorough else 2) + [V, 2 * V + 1])):
-                            out.append(atoms_mul_case(ty, 'set', n, cfg1, kind=rng.choice(['own', 'map'])))
+                            add(atoms_mul_case(ty, 'set', n, cfg1, kind=rng.choice(['own', 'map'])))
                         for n in sample(rng, sizes, 3 if thorough else 1):
-                            out.append(atoms_mul_case(ty, 'mul', n, cfg1))
+                            add(atoms_mul_case(ty, 'mul', n, cfg1))
                         for n in sample(rng, sizes, 4 if thorough else 2):
-                            out.append(atoms_mul_case(ty, 'set', n, cfg1, scalar=rng.choice(['left', 'right'])))
+                            add(atoms_mul_case(ty, 'set', n, cfg1, scalar=rng.choice(['left', 'right'])))
     seen = set(); res = []
     for c in out:
         if c.cid not in seen: seen.add(c.cid); res.append(c)
